@@ -576,6 +576,11 @@ class Interp:
             m = re.match(r"(.+?) = (.+) -> \[return: (bb\d+), unwind", s)
             if m:
                 return self.call(fn, st, path, k, stop_blocks, depth, m.group(1), m.group(2), m.group(3))
+            m = re.match(r"(.+?) = (?:[\w:<>]*::)?(panic\w*|unreachable\w*|expect_failed|unwrap_failed)\((.*)\) -> unwind", s)
+            if m:
+                # diverging call (panic!, unreachable!, failed expect/unwrap): reaching it is a panic
+                self.panics.append((list(path.pc), "false", "explicit panic reached: %s @%s:%s" % (m.group(3)[:50], fn.name.split("::")[-1], bb)))
+                return
             m = re.match(r"(.+?) = (.+)$", s)
             if not m:
                 raise Unsupported("statement " + s)
@@ -1110,12 +1115,69 @@ def kernel_degree(E):
     return {"paths": len(outs)}
 
 
+def _enum_term(v, w=8):
+    """bit-vector term of a C-like enum value (concrete index or symbolic discriminant)"""
+    if v[0] != "enum":
+        raise Unsupported("enum value expected")
+    if isinstance(v[1], int):
+        return "(_ bv%d %d)" % (v[1], w)
+    return v[1][2]
+
+
+def kernel_orientation(E):
+    """C15: Orientation::{rotate, flip_horizontal, flip_vertical} on the MIR: rotations add modulo
+    four quarter turns, flips are involutions, horizontal then vertical flip is a half turn"""
+    ctx = Ctx()
+    rot, mir, o = mk_orientation(ctx)
+    r2 = ctx.fresh(8, "by")
+    pre = ["(bvult %s (_ bv4 8))" % rot[2], "(bvult %s (_ bv4 8))" % r2[2]]
+    it = Interp(E.fns, E.structs, E.enums, ctx, None)
+    it.feasible = E.feasible_cb(lambda: ctx.decls, pre)
+    f_rot = E.fn(r"::rotate\(_1: Orientation, _2: Rotation\)")
+    f_fh = E.fn(r"::flip_horizontal\(_1: Orientation\)")
+    f_fv = E.fn(r"::flip_vertical\(_1: Orientation\)")
+
+    def run(fn, args, path=None):
+        outs = []
+        it.run(fn, args, path or Path(), lambda p, rv, st: outs.append((p, rv)))
+        return outs
+
+    n = 0
+    for (p, rv) in run(f_rot, [o, ("enum", r2, [])]):
+        goal = "(and (= %s (bvand (bvadd %s %s) #x03)) (= %s %s))" % (_enum_term(rv[1][0]), rot[2], r2[2], rv[1][1][1], mir[1])
+        E.decide("orientation/rotate/path%d" % n, ctx.decls, pre + p.pc + ["(not %s)" % goal], get=[rot[2], mir[1], r2[2]],
+                 what="[C15] Orientation::rotate adds quarter turns modulo four and keeps the mirror flag")
+        n += 1
+    for nm, f1, f2 in (("flip_horizontal twice", f_fh, f_fh), ("flip_vertical twice", f_fv, f_fv)):
+        k = 0
+        for (p1, v1) in run(f1, [o]):
+            E.decide("orientation/%s/toggles/%d" % (nm.split()[0], k), ctx.decls, pre + p1.pc + ["(= %s %s)" % (v1[1][1][1], mir[1])], get=[rot[2], mir[1]],
+                     what="[C15] a flip toggles the mirror flag")
+            for (p2, v2) in run(f2, [v1], Path(p1.pc)):
+                goal = "(and (= %s %s) (= %s %s))" % (_enum_term(v2[1][0]), rot[2], v2[1][1][1], mir[1])
+                E.decide("orientation/%s/%d" % (nm.replace(" ", "_"), k), ctx.decls, pre + p2.pc + ["(not %s)" % goal], get=[rot[2], mir[1]],
+                         what="[C15] %s is the identity" % nm)
+                k += 1
+    k = 0
+    for (p1, v1) in run(f_fh, [o]):
+        for (p2, v2) in run(f_fv, [v1], Path(p1.pc)):
+            goal = "(and (= %s (bvand (bvadd %s #x02) #x03)) (= %s %s))" % (_enum_term(v2[1][0]), rot[2], v2[1][1][1], mir[1])
+            E.decide("orientation/flip_h_then_v/%d" % k, ctx.decls, pre + p2.pc + ["(not %s)" % goal], get=[rot[2], mir[1]],
+                     what="[C15] horizontal then vertical flip equals a half turn")
+            k += 1
+    for n2, (pc, ok, msg) in enumerate(it.panics):
+        E.decide("orientation/panic-free/%d" % n2, ctx.decls, pre + pc + ["(not %s)" % ok], get=[rot[2], mir[1], r2[2]],
+                 what="[C15] no overflow / unreachable: " + msg)
+    E.functions |= it.inlined
+    return {"paths": n + k}
+
+
 KERNELS = {
     "C01": [("set_address_window", kernel_set_address_window)],
     "C08": [("set_address_window", kernel_set_address_window)],
     "C09": [("init_validation", kernel_init_validation)],
     "C14": [("madctl", kernel_madctl)],
-    "C15": [("try_from_degree", kernel_degree)],
+    "C15": [("try_from_degree", kernel_degree), ("orientation_ops", kernel_orientation)],
     "C16": [("scroll_region", kernel_scroll)],
 }
 
